@@ -7,7 +7,8 @@
    earlier versions of the code (kept for the refuted statements).  Single promise: Join is not
    in this model. *)
 From CV Require Import Promise.Promise Promise.PromiseProofs Promise.PromiseStepProofs Promise.MuProofs
-  Promise.PromiseTheorems Promise.PromiseLive Promise.PromiseProxies Promise.PromiseJoin Promise.PromiseJoinProofs Promise.PromiseJoinThms Promise.PromiseJoinInv.
+  Promise.PromiseTheorems Promise.PromiseLive Promise.PromiseProxies Promise.PromiseJoin Promise.PromiseJoinProofs Promise.PromiseJoinThms Promise.PromiseJoinInv Promise.PromiseJoinRefs Promise.PromiseJoinForest Promise.PromiseJoinDest Promise.PromiseJoinChain Promise.PromiseJoinLive Promise.PromiseJoinStuck Promise.PromiseJoinZero Promise.PromiseJoinHook Promise.PromiseJoinPath
+  Promise.PromiseJoinHookStuck Promise.PromiseJoinLands Promise.PromiseJoinRel Promise.PromiseJoinIdem.
 Open Scope Z_scope.
 
 (* the promise resolves at most once; Fulfill/Reject after the first one panics (OPanic), the
@@ -139,7 +140,7 @@ Theorem C11_no_stuck_refuted :
 Proof. exact no_stuck_refuted. Qed.
 Print Assumptions C11_no_stuck_refuted.
 
-(* Join (model PromiseJoin.v; theorems over all interleavings are for the single-promise model): the seeded
+(* Join (model PromiseJoin.v; the theorems over all interleavings on this model follow below): the seeded
    change C11-3 (resolve no longer closes p.joined) and the code as found (F11c, nil client table) are refuted by
    concrete histories, replayed on the real code (corpus/C11-promise.txt) *)
 Theorem C11_join_resolve_refuted :
@@ -161,11 +162,15 @@ Theorem C11_join_nil_table_refuted :
 Proof. exact join_nil_table_refuted. Qed.
 Print Assumptions C11_join_nil_table_refuted.
 
-(* exactly-once on a promise and its joined chain (model with Join), all variants, any number of promises,
-   every op list and interleaving: count part (at most once always, exactly once when returned).
-   PARTIAL for chains: the destination part and no_stuck are proved for the single-promise model only. *)
-Theorem C11_join_pipelined_exactly_once_partial : forall v np ops c, jreach v np ops c ->
-  forall t th, nth_error (jthreads c) t = Some th ->
+(* pipelined_exactly_once on a promise and its joined chain (model with Join), all variants, any number of promises,
+   every op list and interleaving:
+   (count) a call is delivered at most once, and exactly once when it has returned (a Client-call on an empty slot: zero);
+   (caller) a call is handed to the PipelineCaller of the promise at the end of its traversal only while that promise
+            has not left the unresolved state;
+   (destination) every other delivery was made on the result of the promise at the end of the call's traversal, at
+            the call's path, and that result is final. *)
+Theorem C11_join_pipelined_exactly_once : forall v np ops c, jreach v np ops c ->
+  (forall t th, nth_error (jthreads c) t = Some th ->
     match j_op th with
     | JSend _ _ _ =>
       (jcnt (jis_deliver t) (jevents c) <= 1)%nat /\
@@ -175,9 +180,17 @@ Theorem C11_join_pipelined_exactly_once_partial : forall v np ops c, jreach v np
       (j_pc th = QDone -> (j_out th = ONoSlot /\ jcnt (jis_deliver t) (jevents c) = 0%nat) \/
                           (j_out th = ORet /\ jcnt (jis_deliver t) (jevents c) = 1%nat))
     | _ => True
-    end.
-Proof. exact join_pipelined_exactly_once. Qed.
-Print Assumptions C11_join_pipelined_exactly_once_partial.
+    end) /\
+  wf_jcaller (jevents c) /\
+  (forall t th k d, nth_error (jthreads c) t = Some th -> In (JEDeliver t k d) (jevents c) ->
+    d = DCaller \/
+    (d = res_dest (jcur_res (getp c k)) (j_path th) /\ p_caller (getp c k) = false /\
+     (p_result (getp c k) <> None \/ p_signals (getp c k) = []))).
+Proof.
+  intros v np ops c H. split; [exact (join_pipelined_exactly_once v np ops c H)|].
+  split; [exact (join_caller_before_resolution v np ops c H)|exact (join_delivery_destination v np ops c H)].
+Qed.
+Print Assumptions C11_join_pipelined_exactly_once.
 
 (* ---- joined chains (model PromiseJoin.v): all variants / all numbers of promises / all op lists / all
    interleavings *)
@@ -201,9 +214,212 @@ Theorem C11_join_resolve_once : forall v np ops c, jreach v np ops c -> forall k
 Proof. exact join_resolve_once. Qed.
 Print Assumptions C11_join_resolve_once.
 
-(* destination on chains, first half: a call is handed to the PipelineCaller of the promise at the end of the
-   traversal only while that promise has not left the unresolved state.  PARTIAL: that the other deliveries go
-   to what the leaf's result holds is proved for the single-promise model only. *)
-Theorem C11_join_caller_before_resolution_partial : forall v np ops c, jreach v np ops c -> wf_jcaller (jevents c).
-Proof. exact join_caller_before_resolution. Qed.
-Print Assumptions C11_join_caller_before_resolution_partial.
+
+(* seeded C11-r2-1 (Join: parent.clientsRefs++ instead of += p.clientsRefs) refuted on the Join model: after
+   ReleaseClients on the two joined promises of a child-first chain the client is already released *)
+Theorem C11_join_refs_refuted :
+  match jquiesce jrefs1 1000 (jinit 3 refs_history) 7 with
+  | Some c => In (JEDirect 6 DFail) (jevents c) /\ p_relflag (getp c 0) = false
+  | None => False
+  end.
+Proof. exact join_refs_refuted. Qed.
+Print Assumptions C11_join_refs_refuted.
+
+(* proxy clients on chains, the reference count: over all op lists and interleavings the client-table references
+   (clientsRefs summed over all promises) equal the number of promises that have not called ReleaseClients plus the
+   ReleaseClients calls on their way to the end of their chain: Join conserves the references, each ReleaseClients
+   consumes exactly one, so the table is given up by the last ReleaseClients of the promises sharing it and not
+   before.  Violated by the seeded change C11-r2-1 (C11_join_refs_refuted, join_refs_conservation_refuted). *)
+Theorem C11_join_refs_count : forall v np ops c, jv_refs_sum v = true -> jreach v np ops c ->
+  pm_refs (proms c) = pm_unreleased (proms c) + jcount owes (jthreads c).
+Proof. exact join_refs_count. Qed.
+Print Assumptions C11_join_refs_count.
+
+(* ---- round 6: the forest, the Join precondition, mutex deadlock freedom, destinations on chains *)
+
+(* Precondition of Join (join_ordered): a promise only joins promises of lower index (never itself, never a promise
+   that is or will be joined to it).  Under it every next edge goes to a lower index: joined promises form a forest
+   whose chains end in a promise that is not joined. *)
+Theorem C11_join_forest : forall v np ops c, join_ordered ops -> jreach v np ops c ->
+  (forall k q, p_next (getp c k) = Some q -> (q < k)%nat) /\
+  (forall t th, nth_error (jthreads c) t = Some th -> jjoin_pc (j_pc th) = true -> (j_par th < j_cur th)%nat).
+Proof. exact join_forest. Qed.
+Print Assumptions C11_join_forest.
+
+(* without the precondition Join can block forever *)
+Theorem C11_self_join_refuted :
+  let c := jrun jfixed (jinit 1 [JJoin 0 0]) [0%nat; 0%nat; 0%nat] in
+  jenabled jfixed c 0 = false /\ jfinished c 0 = false /\ jmutex_blocked c 0 = true.
+Proof. exact self_join_refuted. Qed.
+Print Assumptions C11_self_join_refuted.
+
+Theorem C11_cyclic_join_refuted :
+  let c := jrun jfixed (jinit 2 [JJoin 0 1; JJoin 1 0]) [0%nat; 1%nat; 0%nat; 1%nat] in
+  jenabled jfixed c 0 = false /\ jenabled jfixed c 1 = false /\
+  jfinished c 0 = false /\ jfinished c 1 = false /\ jmutex_blocked c 0 = true /\ jmutex_blocked c 1 = true.
+Proof. exact cyclic_join_refuted. Qed.
+Print Assumptions C11_cyclic_join_refuted.
+
+(* no deadlock on the mutexes (component of C11_join_no_stuck): under the precondition of Join, whenever some
+   Promise.mu is held some thread can take a step, so no operation waits forever for a mutex *)
+Theorem C11_join_no_mutex_deadlock : forall v np ops c, jv_alloc_table v = true -> join_ordered ops ->
+  jreach v np ops c -> forall k t, p_mu (getp c k) = Some t -> exists t', jenabled v c t' = true.
+Proof. exact join_no_mutex_deadlock. Qed.
+Print Assumptions C11_join_no_mutex_deadlock.
+
+
+(* joined promises hold nothing: references, clients and signals live at the promise they were joined onto *)
+Theorem C11_join_joined_empty : forall v np ops c, jv_alloc_table v = true -> jreach v np ops c -> forall k,
+  (p_caller (getp c k) = true -> p_next (getp c k) = None) /\
+  (p_next (getp c k) <> None ->
+   p_crefs (getp c k) = 0 /\ p_clients (getp c k) = [] /\ p_signals (getp c k) = []).
+Proof. exact join_joined_empty. Qed.
+Print Assumptions C11_join_joined_empty.
+
+(* proxy clients released, per chain: when every promise other than k has been joined, k's clientsRefs equals the
+   number of promises that have not called ReleaseClients plus the calls still walking to k: the table is given up by
+   the last ReleaseClients of the chain, not before (seeded C11-r2-1) and not later *)
+Theorem C11_join_chain_release : forall v np ops c,
+  jv_alloc_table v = true -> jv_refs_sum v = true -> jreach v np ops c ->
+  forall k, (forall k', k' <> k -> p_next (getp c k') <> None \/ p_crefs (getp c k') = 0) ->
+    p_crefs (getp c k) = pm_unreleased (proms c) + jcount owes (jthreads c).
+Proof. exact join_chain_release. Qed.
+Print Assumptions C11_join_chain_release.
+
+(* ---- deadlock freedom and released waiters on joined chains.
+   Premises of the chain theorems: the code as it is (jv_close_joined: resolve closes p.joined; jv_alloc_table: Join
+   allocates the client table of the promise joined onto; jv_refs_sum: Join hands over all clientsRefs) and the
+   precondition of Join (join_ordered: a promise only joins promises of lower index; self-join and cyclic joins are
+   refuted above).  C11_join_premises_satisfiable shows that they can be met together. *)
+
+(* hook waits on chains, Fulfill side: at rest with no call held inside a PipelineCaller, no resolver is waiting for the
+   calls of a proxy hook to drain.  Proof: per-proxy counting (hook.calls = number of call threads that came through the
+   proxy; refs <= 0 and calls = 0 => hook done) and the path invariant (a proxy in r's table has an owner whose next-chain
+   leads to r; a call that came through it is on that chain), so the call it would wait for is blocked on r's joined /
+   pendingDone channel, which the resolver has already closed *)
+Theorem C11_join_fulfil_never_waits_for_hook : forall v np ops c,
+  jv_close_joined v = true -> jv_alloc_table v = true -> join_ordered ops -> jreach v np ops c ->
+  (forall t, jenabled v c t = false) ->
+  (forall t th, nth_error (jthreads c) t = Some th -> j_pc th <> QInCaller) ->
+  forall t th, nth_error (jthreads c) t = Some th -> j_pc th <> QFulWait.
+Proof. exact join_fulfil_never_waits_for_hook. Qed.
+Print Assumptions C11_join_fulfil_never_waits_for_hook.
+
+
+(* hook waits on chains, Release side: ReleaseClients / Client.Release never waits for a proxy hook at all - it only
+   starts when the receiver's resolved channel is closed; then the next-chain from the receiver ends in a settled
+   (resolved) promise whose Fulfill loop has set the target of every proxy in its table, and a proxy with a target is
+   released without waiting *)
+Theorem C11_join_release_never_waits_for_hook : forall v np ops c,
+  jv_alloc_table v = true -> jreach v np ops c ->
+  forall t th, nth_error (jthreads c) t = Some th -> j_pc th <> QRelWait.
+Proof. exact join_release_never_waits_for_hook. Qed.
+Print Assumptions C11_join_release_never_waits_for_hook.
+
+(* the invariant behind it: a promise whose resolved channel is closed reaches, along next, a settled promise
+   (signals handed out, no next edge) and every proxy in that promise's table has its target set *)
+Theorem C11_join_resclosed_lands : forall v np ops c,
+  jv_alloc_table v = true -> jreach v np ops c ->
+  forall k, p_resclosed (getp c k) = true ->
+    exists r, nreach c k r /\ settled c r /\ (forall x, in_rows c r x -> jx_target (getx c x) <> None).
+Proof. exact join_resclosed_lands. Qed.
+Print Assumptions C11_join_resclosed_lands.
+
+(* no_stuck on chains, same shape as C11_no_stuck: if no thread can take a step then the application holds a call
+   inside a PipelineCaller (gated, not released), or every unfinished operation waits - on its own promise's resolved /
+   joined channel, or through Join threads - for a promise that nobody has asked to resolve *)
+Theorem C11_join_no_stuck : forall v np ops c,
+  jv_close_joined v = true -> jv_alloc_table v = true -> join_ordered ops -> jreach v np ops c ->
+  (forall t, jenabled v c t = false) ->
+  (exists t th, nth_error (jthreads c) t = Some th /\ j_pc th = QInCaller /\
+                jop_gated (j_op th) = true /\ mem_nat t (jgates c) = false) \/
+  (forall t th, nth_error (jthreads c) t = Some th -> j_pc th <> QDone ->
+                exists r, p_caller (getp c r) = true).
+Proof. exact join_no_stuck. Qed.
+Print Assumptions C11_join_no_stuck.
+
+(* waiters_released on chains: at rest, no call held by the application, every promise asked to resolve or joined =>
+   every operation (Done/Struct waiters, ReleaseClients, Client(), pipelined calls, Joins) has finished *)
+Theorem C11_join_waiters_released : forall v np ops c,
+  jv_close_joined v = true -> jv_alloc_table v = true -> join_ordered ops -> jreach v np ops c ->
+  (forall t, jenabled v c t = false) ->
+  (forall t th, nth_error (jthreads c) t = Some th -> j_pc th = QInCaller ->
+                jop_gated (j_op th) = true -> mem_nat t (jgates c) = true) ->
+  (forall k, p_caller (getp c k) = false) ->
+  forall t th, nth_error (jthreads c) t = Some th -> j_pc th = QDone.
+Proof. exact join_waiters_released. Qed.
+Print Assumptions C11_join_waiters_released.
+
+(* proxy targets on chains: every proxy in the client table of a settled (resolved) promise r - its own pipelined
+   clients and those moved to it by Joins - has been given r's result at the proxy's path.  With
+   C11_join_chain_release (the table is given up by the last ReleaseClients of the chain) this is
+   proxy_clients_resolved_and_released on chains. *)
+Theorem C11_join_proxy_targets : forall v np ops c,
+  jv_alloc_table v = true -> jreach v np ops c ->
+  forall r x res, settled c r -> p_result (getp c r) = Some res -> in_rows c r x ->
+    jx_target (getx c x) = Some (res_dest res (jx_path (getx c x))).
+Proof. exact join_proxy_targets. Qed.
+Print Assumptions C11_join_proxy_targets.
+
+(* proxy_clients_resolved_and_released on chains, in the shape of the single-promise theorem:
+   (resolved) once Fulfill / Reject of promise k has returned, every proxy whose owner's next-chain ends at k - the
+   pipelined clients of k and of every promise joined, directly or not, onto k, whether still in k's table or already
+   taken by ReleaseClients - refers to what that resolution holds at the proxy's path;
+   (released) every proxy is in some promise's client table, or in the loop of the ReleaseClients call that took its
+   table, or released: once the table of a chain has been taken (by the last ReleaseClients of the chain,
+   C11_join_chain_release) and that call has returned, every proxy that was in it is released. *)
+Theorem C11_join_proxy_clients_resolved_and_released : forall v np ops c,
+  jv_alloc_table v = true -> jreach v np ops c ->
+  (forall t th k, nth_error (jthreads c) t = Some th -> (exists caps, j_op th = JFulfill k caps) \/ j_op th = JReject k ->
+     j_pc th = QDone -> j_out th = ORet ->
+     forall x, (x < length (jproxies c))%nat -> nreach c (own c x) k ->
+       jx_target (getx c x) = Some (res_dest (jop_res (j_op th)) (jx_path (getx c x)))) /\
+  (forall x, (x < length (jproxies c))%nat ->
+     (exists r, in_rows c r x) \/
+     (exists t th, nth_error (jthreads c) t = Some th /\ j_pc th = QRel /\ In x (j_rest th)) \/
+     jx_rel (getx c x) = true).
+Proof. exact join_proxy_clients_resolved_and_released. Qed.
+Print Assumptions C11_join_proxy_clients_resolved_and_released.
+
+(* client_idempotent on chains ("same proxy" part; the mu part is C11_join_mu_discipline): Future.Client calls for
+   the same path that ended their traversal at the same promise returned the same proxy, as long as that promise is
+   still unresolved.  Across a Join the code itself hands out the proxy of the promise joined onto (the row of a path
+   then holds both promises' proxies and Client() returns the first; both resolve to the same capability by
+   C11_join_proxy_clients_resolved_and_released), so the single-promise statement does not carry over literally. *)
+Theorem C11_join_client_idempotent : forall v np ops c,
+  jv_alloc_table v = true -> jreach v np ops c ->
+  forall t1 t2 th1 th2 k1 k2 q s1 s2 x1 x2,
+    nth_error (jthreads c) t1 = Some th1 -> nth_error (jthreads c) t2 = Some th2 ->
+    j_op th1 = JClient k1 q s1 -> j_op th2 = JClient k2 q s2 ->
+    j_pc th1 = QDone -> j_pc th2 = QDone ->
+    j_out th1 = OHandle (HProxy x1) -> j_out th2 = OHandle (HProxy x2) ->
+    j_cur th1 = j_cur th2 -> p_caller (getp c (j_cur th1)) = true ->
+    x1 = x2.
+Proof. exact join_client_idempotent. Qed.
+Print Assumptions C11_join_client_idempotent.
+
+(* the premises are satisfiable together: the variant of the code as it is, and an ordered history with two Joins
+   that runs to a configuration where every operation has finished *)
+Example C11_join_premises_satisfiable :
+  jv_close_joined jfixed = true /\ jv_alloc_table jfixed = true /\ jv_refs_sum jfixed = true /\
+  join_ordered premises_history /\
+  exists c, jreach jfixed 3 premises_history c /\ (forall t, jenabled jfixed c t = false) /\
+            (forall t th, nth_error (jthreads c) t = Some th -> j_pc th = QDone).
+Proof. exact join_premises_satisfiable. Qed.
+Print Assumptions C11_join_premises_satisfiable.
+
+(* relation between the two models, PARTIAL: with zero Join operations the Join-specific state of PromiseJoin.v is
+   inert (no promise pending join or joined, no mu held at a section boundary, no thread in a Join section): each
+   promise runs the single-promise protocol on its own fields, and the precondition of Join holds vacuously, so every
+   chain theorem above applies to each promise on its own.  A full simulation on the projected observables is not
+   proved; the two models are additionally tied through the implementation (seq vs join 1 / par 1 histories). *)
+Theorem C11_join_zero_joins_inert_partial : forall v np ops c, Forall no_join_op ops -> jreach v np ops c ->
+  (forall k, p_next (getp c k) = None /\ p_joined (getp c k) = CNil /\ p_mu (getp c k) = None) /\
+  (forall t th, nth_error (jthreads c) t = Some th -> jjoin_pc (j_pc th) = false) /\
+  join_ordered ops.
+Proof.
+  intros v np ops c Hn Hr. destruct (join_zero_joins_inert v np ops c Hn Hr) as [A B].
+  split; [exact A|]. split; [exact B|exact (no_join_ordered ops Hn)].
+Qed.
+Print Assumptions C11_join_zero_joins_inert_partial.
+
